@@ -544,6 +544,32 @@ def _mentions(e, v):
     return any(_mentions(c, v) for c in e.children())
 
 
+def _coerce_objs(tmpl, v):
+    """a python constant (tuple / dict / list without symbolic parts) stored where the template has an opaque object: the interned
+    object constant for that literal (equal literals give the same constant)"""
+    if is_sym(tmpl) and str(tmpl.sort()) == "Obj":
+        if is_sym(v):
+            return v
+        try:
+            if any(is_sym(l) for l in leaves_of(v)):
+                return None
+        except Outside:
+            return None
+        return z3.Const("obj:" + repr(v), tmpl.sort())
+    if isinstance(tmpl, dict) and isinstance(v, dict) and set(tmpl) == set(v):
+        out = {}
+        for k in tmpl:
+            c = _coerce_objs(tmpl[k], v[k])
+            if c is None:
+                return None
+            out[k] = c
+        return out
+    if isinstance(tmpl, tuple) and isinstance(v, tuple) and len(tmpl) == len(v):
+        parts = [_coerce_objs(a, b) for a, b in zip(tmpl, v)]
+        return None if any(p is None and b is not None for p, b in zip(parts, v)) else tuple(parts)
+    return v
+
+
 # ---------------------------------------------------------------- SymList
 class SymList:
     """python list with symbolic length. tmpl: a value giving the structure of one element;
@@ -585,6 +611,9 @@ class SymList:
 
     def _coerce(self, v):
         if sig_of(v) != sig_of(self.tmpl):
+            v2 = _coerce_objs(self.tmpl, v)
+            if v2 is not None and sig_of(v2) == sig_of(self.tmpl):
+                return leaves_of(v2)
             # allow python-constant scalars against symbolic template leaves
             raise Outside(f"list element of structure {sig_of(v)} stored into list of {sig_of(self.tmpl)}")
         return leaves_of(v)
@@ -805,3 +834,11 @@ class GList:
 
     def sig(self):
         return ("GList",) + tuple(sig_of(v) for _, v in self.items)
+
+
+def guarded_check(solver, timeout_ms):
+    """solver.check(); errors count as unknown.  (An interrupting watchdog thread was tried and crashed z3: not used.)"""
+    try:
+        return solver.check()
+    except z3.Z3Exception:
+        return z3.unknown
